@@ -87,6 +87,8 @@ def run(ctx):
     # R18.3
     ar.compat_checks_rule(ctx, 'R18.3')
     ar.index_normalisation_rule(ctx, 'R18.3b')
+    from . import findings2 as _f2
+    _f2.destructive_order(ctx, 'R18.5')
     ar.mode_params_rule(ctx, 'R18.3c')
     _validate_early(ctx)
     _filter_validation(ctx)
